@@ -594,12 +594,24 @@ impl ClusterHandler for GenCommHandler<'_> {
         let mut persist = Persist::new(ctx.kv());
 
         let status = CommissioningErrorEnum::map(ctx.exchange().with_state(|state| {
+            let previous = (
+                state.basic_info_settings.location.clone(),
+                state.basic_info_settings.location_type.clone(),
+            );
+
             state.basic_info_settings.set_location(country_code);
             state.basic_info_settings.location_type = Some(location_type);
 
-            state.failsafe.set_breadcrumb(breadcrumb);
+            if let Err(e) = state.basic_info_settings.store_persist(&mut persist) {
+                // The command is answered with an error: take the change back, or the next
+                // successful write of any other basic-information setting would persist it
+                state.basic_info_settings.location = previous.0;
+                state.basic_info_settings.location_type = previous.1;
 
-            state.basic_info_settings.store_persist(&mut persist)?;
+                return Err(e);
+            }
+
+            state.failsafe.set_breadcrumb(breadcrumb);
 
             Ok(())
         }))?;
